@@ -143,6 +143,7 @@ def one_session(args):
     cwd_files = [k for k in sorted(case['names']) if not case['names'][k].startswith('$TMPDIR/') and not case['names'][k].startswith('~')]
     plan = ['remove', 'stream', 'edit', 'exit', 'tokenline', 'stream', 'tokenline']
     for step in range(nperturb):
+        into_ = False
         kind_ = 'tokenline' if step == 1 else plan[(tid + step) % len(plan)]
         forced_char = dated is not None and step == 0
         if forced_char:
@@ -161,7 +162,8 @@ def one_session(args):
             t = 'exit'
         elif kind_ == 'tokenline':
             cands = [x for x in targets if x in ('STDOUT', 'STDERR')] + [k for k in sorted(case['names']) if case['beh']['files'][case['names'][k]]['kind'] == 'text']
-            t = cands[(tid // 2 + step) % len(cands)] if cands else 'exit'
+            t = cands[(tid + step) % len(cands)] if cands else 'exit'
+            into_ = cands and ((tid + step) // len(cands)) % 2 == 0       # (every target meets both kinds of token-line change)
         else:
             streams = [x for x in targets if x in ('STDOUT', 'STDERR')]
             t = 'STDOUT' if forced_char else (rnd.choice(streams) if streams else rnd.choice(targets))
@@ -173,14 +175,14 @@ def one_session(args):
             how = 'remove' if kind_ == 'remove' else ('tokenline' if kind_ == 'tokenline' and spec['kind'] == 'text' else 'edit')
             if how == 'tokenline':
                 done_ = False
-                if tid % 2 == 0:
+                if into_:
                     for tok_ in case['tokens'][:3]:
                         spec['text'], done_ = gl.edit_into_token(spec['text'], tok_)
                         if done_:
                             what = 'text file: first line altered into one that mentions a machine-specific token'
                             break
                 if not done_:
-                    spec['text'], what = gl.edit_token_line(spec['text'], rnd, case['wd'])
+                    spec['text'], what = gl.edit_token_line(spec['text'], rnd, case['wd'], tokens=case['tokens'][:3])
             elif how == 'remove':
                 beh['files'][name] = None
                 what = 'file no longer produced'
@@ -200,7 +202,7 @@ def one_session(args):
         elif t in ('STDOUT', 'STDERR') and kind_ == 'tokenline':
             key_ = 'stdout' if t == 'STDOUT' else 'stderr'
             done_ = False
-            if tid % 2 == 0:
+            if into_:
                 # an ordinary line altered into one that mentions the machine (same number of lines)
                 for tok_ in case['tokens'][:3]:
                     beh[key_], done_ = gl.edit_into_token(beh[key_], tok_)
@@ -208,7 +210,7 @@ def one_session(args):
                         what = '%s: first line altered into one that mentions a machine-specific token' % key_
                         break
             if not done_:
-                beh[key_], what = gl.edit_token_line(beh[key_], rnd, case['wd'])
+                beh[key_], what = gl.edit_token_line(beh[key_], rnd, case['wd'], tokens=case['tokens'][:3])
                 what = '%s: %s' % (key_, what)
         elif t == 'STDOUT':
             beh['stdout'] = gl.edit_first_line(beh['stdout'], rnd, how='char' if forced_char else None)
@@ -273,6 +275,13 @@ def run_sessions(chk, seed, nsessions, nperturb, clauses, kind):
     for (seed_, tid, _, shape, _), (evs, det) in zip(tasks, results):
         byshape.setdefault(''.join(shape), []).extend(evs)
         details[tid] = det
+    # what the perturbations were (evidence; a kind that never occurs was never tested)
+    pk = chk.coverage.setdefault('perturbation_kinds', {})
+    for det in details.values():
+        for pz in det.get('perturbations', []):
+            key = '%s: %s' % ('file' if pz['target'] not in ('STDOUT', 'STDERR', 'exit') else pz['target'],
+                              re.sub(r'\d+', 'N', pz['what'].split(': ')[-1])[:60])
+            pk[key] = pk.get(key, 0) + 1
     nviol = 0
     for shape, events in sorted(byshape.items()):
         res, rejected = trace.validate('Trace_Gentest', 'Trace_Gentest_%s.cfg' % shape, events, name='gentest_%s_%s' % (kind, shape or 'none'),
